@@ -1,7 +1,9 @@
 // C33: Browse returns exactly the matching references.
 //
 // Enumeration: every (requested reference type in {all ReferenceType nodes of
-// the address space} + {null}) x IncludeSubtypes x direction {Forward, Inverse,
+// the address space} + {null} + {ids that denote no ReferenceType node: string,
+// GUID, opaque, ns>0;i=0, unused numeric, namespace out of range, a non-type
+// node; expected result empty}) x IncludeSubtypes x direction {Forward, Inverse,
 // Both} x class mask {0, each single class bit, all bits} on a node set that
 // covers every (actual reference type, direction, target class) occurring in
 // the address space (thorough: every node), on a real server with the imported
@@ -79,7 +81,10 @@ type c33World struct {
 	nkeys    map[string]int    // distinct (type, direction, target) among them
 	ids      map[string]*ua.NodeID
 	mapNode  string // Objects node of the added MapNamespace
-	illForm  int
+	// requested reference types that denote no ReferenceType node (id string -> kind, part of signatures)
+	unknownTypes []string
+	unknownKind  map[string]string
+	illForm      int
 }
 
 func mkVar(nid *ua.NodeID, name string, class ua.NodeClass, refs []*ua.ReferenceDescription) *server.Node {
@@ -275,6 +280,38 @@ func buildC33World() (*c33World, error) {
 		}
 		w.nkeys[w.mapNode] = len(keys)
 	}
+	// Requested reference types that are not the null NodeID and denote no ReferenceType node: no reference
+	// has such a type and nothing is a subtype of it, so by the statement the expected result is empty.
+	addedNS := uint16(1)
+	for _, ns := range s.Namespaces() {
+		if nn, ok := ns.(*server.NodeNameSpace); ok && nn.ID() != 0 {
+			addedNS = nn.ID()
+			break
+		}
+	}
+	w.unknownKind = map[string]string{}
+	for _, u := range []struct {
+		id   *ua.NodeID
+		kind string
+	}{
+		{ua.NewStringNodeID(addedNS, "NoSuchReferenceType"), "string-id"},
+		{ua.NewStringNodeID(0, "NoSuchReferenceType"), "string-id-ns0"},
+		{ua.NewGUIDNodeID(addedNS, "AAAAAAAA-BBBB-CCCC-DDDD-EEEEEEEEEEEE"), "guid-id"},
+		{ua.NewByteStringNodeID(addedNS, []byte("no-such-type")), "opaque-id"},
+		{ua.NewNumericNodeID(addedNS, 0), "numeric-0-in-added-namespace"},
+		{ua.NewNumericNodeID(addedNS, 4999), "numeric-unknown-in-added-namespace"},
+		{ua.NewNumericNodeID(0, 999999), "numeric-unknown-ns0"},
+		{ua.NewNumericNodeID(99, id.Organizes), "namespace-out-of-range"},
+		{ua.NewNumericNodeID(0, id.ObjectsFolder), "node-that-is-not-a-reference-type"},
+	} {
+		k := u.id.String()
+		if w.byID[k] != nil && w.byID[k].NodeClass() == ua.NodeClassReferenceType {
+			return nil, fmt.Errorf("%s was meant to denote no ReferenceType node", k)
+		}
+		w.unknownTypes = append(w.unknownTypes, k)
+		w.unknownKind[k] = u.kind
+		w.ids[k] = u.id
+	}
 	return w, nil
 }
 
@@ -432,6 +469,8 @@ func (w *c33World) judge(c c33Case, res *ua.BrowseResult) (out []c33Verdict, sha
 			kind = "extra-ref:not-a-reference-of-the-node"
 		case !(c.Dir == 2 || (c.Dir == 0 && r.fwd) || (c.Dir == 1 && !r.fwd)):
 			kind = "dir=" + dirNames[c.Dir] + "/extra-ref:wrong-direction"
+		case w.unknownKind[c.RefType] != "":
+			kind = fmt.Sprintf("includeSubtypes=%v/requested=unknown-type(%s)/extra-ref:no-reference-has-that-type", c.Sub, w.unknownKind[c.RefType])
 		case r.typ != c.RefType && !w.sub[c.RefType][r.typ]:
 			kind = fmt.Sprintf("includeSubtypes=%v/extra-ref:unrelated-reference-type", c.Sub)
 		case r.typ != c.RefType && !c.Sub:
@@ -460,6 +499,9 @@ func (w *c33World) judge(c c33Case, res *ua.BrowseResult) (out []c33Verdict, sha
 func (w *c33World) reqClass(t string) string {
 	if t == "i=0" {
 		return "null"
+	}
+	if k := w.unknownKind[t]; k != "" {
+		return "unknown-type(" + k + ")"
 	}
 	if w.sub[t][ua.NewNumericNodeID(0, id.HasSubtype).String()] {
 		return "supertype-of-HasSubtype"
@@ -530,8 +572,8 @@ func c33() {
 		r.Violate("Browse/wire/server-died/"+fn, fmt.Sprintf("worker died while running %s\n%s\n%s", d.LastCase, head, lastLines(d.Stderr, 30)), d.LastCase)
 		r.Capped(fmt.Sprintf("worker %d died; the rest of its shard was not run", d.Shard))
 	}
-	r.Rule("every (requested reference type in all ReferenceType nodes + null) x IncludeSubtypes{false,true} x direction{Forward,Inverse,Both} x class mask{0, 8 single bits, 255} on each node of the node set (quick: greedy cover of every (reference type, direction, target class) triple occurring in ns0 + every node of the added namespace; thorough: every node), each executed directly (NameSpace.Browse) and over the wire (real client); evaluations = executed Browse operations; non-trivial = the node has at least one well-formed reference; distinct = (requested type, subtypes, direction, mask, shape of the expected result: none/some/all)")
-	r.Assume("only well-formed references (non-nil target, names, type definition) are judged; null requested reference type executed but not judged; a reference whose recorded target class differs from the target node's class is not judged when the mask would decide differently")
+	r.Rule("every (requested reference type in all ReferenceType nodes + null + 9 ids that denote no ReferenceType node: string (added namespace, ns0), GUID, opaque, numeric 0 and an unused numeric id in the added namespace, unused numeric id in ns0, namespace out of range, the Objects folder) x IncludeSubtypes{false,true} x direction{Forward,Inverse,Both} x class mask{0, 8 single bits, 255} on each node of the node set (quick: greedy cover of every (reference type, direction, target class) triple occurring in ns0 + every node of the added namespace; thorough: every node), each executed directly (NameSpace.Browse) and over the wire (real client); evaluations = executed Browse operations; non-trivial = the node has at least one well-formed reference; distinct = (requested type, subtypes, direction, mask, shape of the expected result: none/some/all)")
+	r.Assume("only well-formed references (non-nil target, names, type definition) are judged; null requested reference type executed but not judged; a requested reference type that is not null and denotes no ReferenceType node matches nothing (expected result: empty); a reference whose recorded target class differs from the target node's class is not judged when the mask would decide differently")
 	r.Finish()
 }
 
@@ -557,6 +599,7 @@ func c33Worker(s evid.ShardInfo, r *evid.Run, thorough bool) {
 		nodes = append(nodes, w.mapNode)
 	}
 	types := append([]string{"i=0"}, w.refTypes...)
+	types = append(types, w.unknownTypes...)
 	if s.Index == 0 {
 		all := make([]string, 0, len(w.nodes))
 		for _, n := range w.nodes {
@@ -565,6 +608,7 @@ func c33Worker(s evid.ShardInfo, r *evid.Run, thorough bool) {
 		r.Set("nodes_in_address_space", len(w.nodes))
 		r.Set("nodes_browsed", len(nodes))
 		r.Set("reference_types_requested", len(types))
+		r.Set("requested_types_denoting_no_reference_type", w.unknownTypes)
 		r.Set("triples_in_address_space", w.triples(all))
 		r.Set("triples_covered_by_node_set", w.triples(nodes))
 		r.Set("ill_formed_references_skipped", w.illForm)
